@@ -14,7 +14,9 @@ RULE = ("(machine part also: clock jumps of 2-12 steps through Market._set_time;
         "orders on both sides. (sim) the same engine as the runner drives it: C09's session lists and C16's halt-rule "
         "configurations (one or two rules, one or both markets as targets); an exception escaping a round is attributed to "
         "C03 through its innermost pams frame, and without an enabled halt rule the book of the accepted order's market must "
-        "not be executable at the next observation point of an execution session; non-trivial there = run with >=2 fills.")
+        "not be executable at the next observation point of an execution session; non-trivial there = run with >=2 fills. "
+        "(odd_levels) short books of 2-20 one-to-three-lot limit orders within two ticks of a grid level l with (l*tick)/tick != l in "
+        "floating point (ticks that are not powers of two), ties and one-tick crossings, batch or continuous; non-trivial = a round with fills.")
 ASSUMPTIONS = ["the part 'nonpositive' uses limit prices <= 0, which pams accepts with a warning; all other parts use positive prices",
                "thorough tier adds a coverage-guided atheris campaign over byte-decoded histories (16 processes, half from an empty corpus); its saved decoded case, not the campaign, is the reproducible unit",
                "when both best orders are market orders (outside C03's premise) the engine's decision not to run a round is accepted"]
@@ -45,6 +47,34 @@ def _nonpositive_strategy(tier):
 
 PARTS["nonpositive"] = {"check": make_check({"C03"}, _nt), "strategy": _nonpositive_strategy, "budget": {"quick": 1500, "thorough": 40000}}
 PARTS["fuzz"] = fuzz_part("C03", {"C03"}, _nt)
+
+
+@st.composite
+def _odd_level_cases(draw, tier):
+    """books around a grid level l whose price does not give the level back in floating point ((l*tick)/tick != l): with a tick
+    that is not a power of two this happens on a few levels in a hundred, and an engine that recomputes levels from accepted prices
+    (instead of comparing the prices) misjudges exactly the ties and one-tick crossings there"""
+    import math
+    tick = draw(st.one_of(st.sampled_from([0.1, 0.3, 1.1, 0.01, 7.0, 2.5, 1e-5]), st.floats(min_value=1e-3, max_value=20.0, allow_nan=False)))
+    L0 = draw(st.integers(min_value=8, max_value=5000))
+    odd = [l for l in range(L0, L0 + 400) if (l * tick) / tick != l]
+    lv = draw(st.sampled_from(odd)) if odd else L0
+    n = draw(st.integers(min_value=2, max_value=8 if tier == "quick" else 20))
+    ops = []
+    for _ in range(n):
+        k = draw(st.sampled_from([0, 0, 0, 1, -1, 2, -2]))
+        ops.append(["L", draw(st.booleans()), (lv + k) * tick, draw(st.integers(1, 3)), draw(st.sampled_from([None, None, 2])), draw(st.integers(0, 3))])
+        r = draw(st.integers(0, 5))
+        if r == 0:
+            ops.append(["X"])
+        elif r == 1:
+            ops.append(["T"])
+    ops.append(["X"])
+    return {"tick": tick, "p0": lv * tick, "continuous": draw(st.booleans()), "running0": True, "ops": ops, "rewrite_every": None,
+            "odd_level": bool(odd)}
+
+
+PARTS["odd_levels"] = {"check": make_check({"C03"}, lambda f: bool(f.get("rounds_with_fills"))), "strategy": _odd_level_cases, "budget": {"quick": 1500, "thorough": 30000}}
 
 
 # -- rounds as the runner triggers them (sessions, halts, events around the matching engine) --------------------------------
